@@ -240,6 +240,20 @@ def _modify_if(l, p, k, f):
 inplace("dataiter/list_of_dicts.py::ListOfDicts.modify_if[one key]",
         lambda run: ((l, p, k, f) for l in lists(maxlen(run)) for p in PREDICATES for k in ["a", "c"] for f in ["a_plus", "const7"]),
         lambda d, p, k, f: d.modify_if(PREDICATES[p], **{k: FUNCS[f]}), _modify_if, B)
+def _modify_if2(l, p, f, g):
+    for x in l:
+        if PREDICATES[p](x):          # evaluated once, on the untouched item
+            x["a"] = FUNCS[f](x)
+            x["c"] = FUNCS[g](x)
+    return l
+
+
+inplace("dataiter/list_of_dicts.py::ListOfDicts.modify[two keys: values]",
+        lambda run: ((l, f, g) for l in lists(maxlen(run)) for f in FUNCS for g in FUNCS),
+        lambda d, f, g: d.modify(a=FUNCS[f], c=FUNCS[g]), lambda l, f, g: _modify(l, ("a", f), ("c", g)), B)
+inplace("dataiter/list_of_dicts.py::ListOfDicts.modify_if[two keys: values]",
+        lambda run: ((l, p, f, g) for l in lists(maxlen(run)) for p in PREDICATES for f in FUNCS for g in FUNCS),
+        lambda d, p, f, g: d.modify_if(PREDICATES[p], a=FUNCS[f], c=FUNCS[g]), _modify_if2, B)
 inplace("dataiter/list_of_dicts.py::ListOfDicts.unselect[one key]",
         lambda run: ((l, k) for l in lists(maxlen(run)) for k in ["a", "b", "c"]),
         lambda d, k: d.unselect(k), lambda l, k: [{kk: v for kk, v in x.items() if kk != k} for x in l], B)
@@ -367,6 +381,15 @@ def deepcopy_driver(run):
         EDIT_OPS[op](cp)
         ok = ok and plain(data) == before and not object.__getattribute__(data, "_obsolete")
         run.check([l, op], ok, expected=before, got=plain(data), clause="edits through a deep copy are invisible in the original")
+        # values nested inside an item (JSON-like data) are copied too: an edit of a nested dict / list of the copy stays in the copy
+        nested = mk([dict(x, n={"u": [1, 2]}, m=[{"v": 0}]) for x in l])
+        nb = copy.deepcopy(plain(nested))
+        c2 = nested.deepcopy()
+        for item in c2:
+            item["n"]["u"].append(3)
+            item["n"]["w"] = 1
+            item["m"][0]["v"] = 9
+        run.check([l, op], plain(nested) == nb, expected=nb, got=plain(nested), clause="nested values of a deep copy are not shared with the original")
 
 
 @driver("dataiter/list_of_dicts.py::ListOfDicts.__getattribute__[a public method]")
@@ -383,6 +406,34 @@ def getattribute_driver(run):
         exp = 1 if (o and not w and a in ("filter", "sort")) else 0
         run.check([o, w, a], out.getvalue().count("Warning") == exp and (callable(v1) == (a != "_group_keys")),
                   expected=exp, got=out.getvalue(), clause="warn once")
+
+
+_OP_USES = {
+    "slice": lambda x: x[0:1], "full slice": lambda x: x[:], "reversed slice": lambda x: x[::-1], "+": lambda x: x + ListOfDicts([{"a": 2}]),
+    "*": lambda x: x * 2, "copy.copy": lambda x: copy.copy(x), "head": lambda x: x.head(1), "pluck": lambda x: x.pluck("a"),
+    "len then filter": lambda x: (len(x), x.filter(lambda i: True)),
+}
+
+
+def operator_use_driver(name, uses):
+    @driver(name)
+    def _d(run):
+        run.bound = f"obsolete x warned in {{False,True}} x uses {sorted(uses)}: the next use of an obsolete list prints the warning exactly once"
+        for o, w, u in run.inputs((o, w, u) for o in (False, True) for w in (False, True) for u in uses):
+            x = ListOfDicts([{"a": 1}, {"a": 3}])
+            x._obsolete, x._obsolete_warned = o, w
+            out = io.StringIO()
+            with contextlib.redirect_stdout(out):
+                _OP_USES[u](x)
+                _OP_USES[u](x)
+            exp = 1 if (o and not w) else 0
+            run.check([o, w, u], out.getvalue().count("Warning") == exp, expected=exp, got=out.getvalue(), clause=f"use through {u}: warn exactly once")
+    return _d
+
+
+operator_use_driver("dataiter/list_of_dicts.py::ListOfDicts.__getattribute__[the private helper _new (used by slicing, + and *)]", list(_OP_USES))
+operator_use_driver("dataiter/list_of_dicts.py::ListOfDicts.__getitem__[obsolete receiver: slicing is a use]", ["slice", "full slice", "reversed slice"])
+operator_use_driver("dataiter/list_of_dicts.py::ListOfDicts.__add__[obsolete receiver: + is a use]", ["+", "*", "copy.copy"])
 
 
 def second_operand_driver(name, op):
@@ -550,6 +601,8 @@ lod_join_driver(LP + "semi_join", "semi")
 lod_join_driver(LP + "anti_join", "anti")
 lod_join_driver(LP + "anti_join[key named differently]", "anti", renamed=True)
 lod_join_driver(LP + "semi_join[lemma:semi/anti partition]", "full")
+lod_join_driver(LP + "full_join[every left and right item at least once, merged pairs have equal keys]", "full")
+lod_join_driver(LP + "full_join[renamed key]", "full", renamed=True)
 
 
 @driver(LP + "full_join[full_join + aggregate: bounded only]")
